@@ -26,6 +26,7 @@ type SpecEnv struct {
 	uses  *[]idxUse
 	inOld bool
 	outer *SpecEnv // closure invariants evaluated at a call site: the enclosing function's scope
+	atEnd bool     // the environment describes the END of block at (its own DebugRefs are visible)
 }
 
 type idxUse struct {
@@ -142,7 +143,7 @@ func (env *SpecEnv) lookupLocal(name string) *Val {
 		// latest dominating DebugRef
 		var best *ssa.DebugRef
 		for _, b := range fr.fn.Blocks {
-			if !(b.Dominates(at)) || b == at {
+			if !(b.Dominates(at)) || (b == at && !env.atEnd) {
 				continue
 			}
 			for _, in := range b.Instrs {
@@ -166,6 +167,31 @@ func (env *SpecEnv) lookupLocal(name string) *Val {
 				}
 			}
 		}
+		// a variable assigned on several branches lives in a phi of a dominating block
+		var bestPhi *ssa.Phi
+		for _, b := range fr.fn.Blocks {
+			if !b.Dominates(at) {
+				continue
+			}
+			for _, in := range b.Instrs {
+				phi, ok := in.(*ssa.Phi)
+				if !ok {
+					break
+				}
+				if phi.Comment != name {
+					continue
+				}
+				if _, have := fr.vals[phi]; !have {
+					continue
+				}
+				if bestPhi == nil || bestPhi.Block().Dominates(b) {
+					bestPhi = phi
+				}
+			}
+		}
+		if bestPhi != nil && (best == nil || !bestPhi.Block().Dominates(best.Block())) {
+			return e.val(fr, env.cur, bestPhi)
+		}
 		if best != nil {
 			v := e.val(fr, env.cur, best.X)
 			if best.IsAddr {
@@ -173,6 +199,9 @@ func (env *SpecEnv) lookupLocal(name string) *Val {
 				return env.load(v.term(), t, v.Comp)
 			}
 			return v
+		}
+		if bestPhi != nil {
+			return e.val(fr, env.cur, bestPhi)
 		}
 	}
 	for _, p := range fr.fn.Params {
